@@ -317,7 +317,8 @@ class Bicomplex(object):
 
     def expm1(self):
         expz1 = np.expm1(self.z1)
-        return Bicomplex(expz1 * np.cos(self.z2), expz1 * np.sin(self.z2))
+        cosz2 = np.cos(self.z2)
+        return Bicomplex(expz1 * cosz2 + (cosz2 - 1), (expz1 + 1) * np.sin(self.z2))
 
     def exp(self):
         expz1 = np.exp(self.z1)
